@@ -122,7 +122,12 @@ func (s *Spec) Abs() *Abs {
 }
 
 var ctPool = []string{"text/plain", "text/plain; charset=utf-8", "TEXT/HTML", "application/json", "application/octet-stream",
-	"image/png", "Application/JSON; q=1", "text/css", "", "garbage;;;=", "application/x-protobuf"}
+	"image/png", "Application/JSON; q=1", "text/css", "", "garbage;;;=", "application/x-protobuf",
+	// Content-Type PARAMETERS: charset in many spellings (a logger must not transcode or re-label the
+	// bytes because of them), unknown parameters, several parameters
+	"text/plain; charset=iso-8859-1", "text/plain; charset=ISO-8859-1", "text/html; charset=\"latin1\"", "text/plain;charset=latin1",
+	"text/plain; Charset=Windows-1252", "application/json; charset=utf-16", "text/xml; charset=UTF-16LE", "text/plain; charset=us-ascii",
+	"text/plain; charset=utf-8; format=flowed", "text/plain; foo=bar", "application/x-thing; version=2; charset=iso-8859-15"}
 
 var extraPool = []KV{{"X-A", "1"}, {"X-Multi", "one"}, {"X-Multi", "two"}, {"Accept", "*/*"}, {"User-Agent", "verif/1.0"},
 	{"X-Empty", ""}, {"Cache-Control", "no-cache, no-store"}, {"Zz-Last", "z"}, {"A-First", "a b  c"}, {"X-Utf", "café"},
